@@ -7,7 +7,7 @@
  * talks about (priorities pushed and popped, values before and after a sort, keys in traversal
  * order, ...), not the link state.  They are judged by TLC with spec/TraceBig.tla.
  *
- * usage: drv_big <out> <seed> <what>...     what = heap:<n> | slist:<n> | dlist:<n> | rb:<n> | bst:<n> | map:<n> | hash:<n>
+ * usage: drv_big <out> <seed> <what>...     what = heap:<n> | slist:<n> | dlist:<n> | rb:<n> | bst:<n> | map:<n> | hash:<n> | sort:<n>
  */
 #include <stdio.h>
 #include <stdlib.h>
@@ -23,6 +23,8 @@
 #include "cstl/rbtree.h"
 #include "cstl/map.h"
 #include "cstl/hash.h"
+#include "cstl/array.h"
+#include "cstl/vector.h"
 
 static FILE *out;
 static long rec_id;
@@ -69,7 +71,14 @@ static void put_list(const char *name, const long *a, long n)
 }
 static void begin(const char *op, long n) { fprintf(out, "{\"id\":%ld,\"op\":\"%s\",\"n\":%ld,", ++rec_id, op, n); }
 static void end_ok(void) { fprintf(out, ",\"priv\":%s,\"out\":\"ok\"}\n", priv_ok ? "true" : "false"); fflush(out); }
-static void end_sig(int sig) { fprintf(out, "\"out\":\"%s\"}\n", sig == SIGALRM ? "hang" : sig == SIGABRT ? "abort" : "segv"); fflush(out); }
+/* after a crash, abort or hang inside the library nothing that follows can be trusted: report and stop */
+static void end_sig(int sig)
+{
+    fprintf(out, "\"out\":\"%s\"}\n", sig == SIGALRM ? "hang" : sig == SIGABRT ? "abort" : "segv"); fflush(out);
+    fclose(out);
+    printf("{\"records\":%ld,\"stopped\":true}\n", rec_id);
+    _exit(0);
+}
 static void fresh_pool(long n)
 {
     long i;
@@ -103,7 +112,7 @@ static void do_heap(long n, int pattern)
     sig = sigsetjmp(jb, 1);
     if (sig == 0) {
         void *e0, *e1;
-        alarm(120);
+        alarm(40);
         cstl_heap_init(&h, cmp, &priv_token, offsetof(struct el, hn));
         for (i = 1; i <= n; i++) {
             cstl_heap_push(&h, &pool[i]); pushed[i - 1] = pool[i].v;
@@ -142,7 +151,7 @@ static void do_list(long n, int dl)
     sig = sigsetjmp(jb, 1);
     if (sig == 0) {
         long size1, size2, backid, frontid;
-        alarm(120);
+        alarm(40);
         if (dl) { cstl_dlist_init(&D, offsetof(struct el, dn)); for (i = 1; i <= n; i++) cstl_dlist_push_back(&D, &pool[i]); cstl_dlist_sort(&D, cmp, &priv_token); }
         else { cstl_slist_init(&S, offsetof(struct el, sn)); for (i = 1; i <= n; i++) cstl_slist_push_back(&S, &pool[i]); cstl_slist_sort(&S, cmp, &priv_token); }
         size1 = (long)(dl ? cstl_dlist_size(&D) : cstl_slist_size(&S));
@@ -197,7 +206,7 @@ static void do_tree(long n, int rb)
     sig = sigsetjmp(jb, 1);
     if (sig == 0) {
         size_t hmin = 0, hmax = 0, hmin2 = 0, hmax2 = 0; long size1, size2, found = 0, erased = 0, visited1, ordered1, cleared1, once1, size1b;
-        alarm(120);
+        alarm(40);
         if (rb) cstl_rbtree_init(&T, cmp, &priv_token, offsetof(struct el, rn));
         else { memset(&T, 0, sizeof T); cstl_bintree_init(&T.t, cmp, &priv_token, offsetof(struct el, rn.n)); }
         for (i = 1; i <= n; i++) { if (rb) cstl_rbtree_insert(&T, &pool[i], NULL); else cstl_bintree_insert(&T.t, &pool[i], NULL); }
@@ -248,7 +257,7 @@ static void do_map(long n)
     sig = sigsetjmp(jb, 1);
     if (sig == 0) {
         long ins0 = 0, dup1 = 0, found = 0, probes = 0, erased = 0, size1, size2, size3, size4, cleared1, once1; cstl_map_iterator_t it;
-        alarm(120);
+        alarm(40);
         cstl_map_init(&M, kcmp, &priv_token);
         for (i = 0; i < n; i++) if (cstl_map_insert(&M, &mkeys[i], &mkeys[i], NULL) == 0) ins0++;
         for (i = 0; i < n; i += 1009) if (cstl_map_insert(&M, &mkeys[i], NULL, &it) == 1 && it.val == (void *)&mkeys[i]) dup1++;
@@ -297,7 +306,7 @@ static void do_hash(long n)
     if (sig == 0) {
         long found = 0, notfound = 0, resizes = 0, maxcalls = 0, overdue = 0, size1, vis1, once1, erased = 0, size2, vis2, once2, gone_found = 0, size3, size4;
         long pend_ops = 0, pend_budget = 0; unsigned long c0;
-        alarm(120);
+        alarm(40);
         cstl_hash_init(&H, offsetof(struct el, xn));
         cstl_hash_resize(&H, 16, hid);
         for (i = 1; i <= n; i++) {
@@ -344,6 +353,65 @@ static void do_hash(long n)
     free(hseen);
 }
 
+/* ---- sorting large arrays: input shapes on which partitioning degenerates (organ pipe, rotated blocks of three,
+ * sorted, reversed, few distinct keys) for every algorithm selector, raw array and vector; records of (key, id) ---- */
+struct rec { int key; int id; };
+static int rcmp(const void *a, const void *b, void *p) { if (p != &priv_token) priv_ok = 0; return cmp3(((const struct rec *)a)->key, ((const struct rec *)b)->key); }
+static void do_sort1(long n, int pattern, int algo, int via)
+{
+    enum { G = 4096 };
+    unsigned char *block; struct rec *arr, scratch_guard; long i, *before, *ids; int sig, guards = 1;
+    before = calloc((size_t)n, sizeof *before); ids = calloc((size_t)n, sizeof *ids);
+    block = malloc(2 * G + ((size_t)n + 1) * sizeof *arr);
+    memset(block, 0x5C, 2 * G + ((size_t)n + 1) * sizeof *arr);
+    arr = (struct rec *)(block + G);
+    (void)scratch_guard;
+    for (i = 0; i < n; i++) {
+        long k;
+        switch (pattern) {
+        case 0: k = i < n / 2 ? i : n - 1 - i; break;                       /* organ pipe */
+        case 1: k = (i / 3) * 3 + (i % 3 == 0 ? 2 : i % 3 - 1); break;      /* 2 0 1 5 3 4 ... */
+        case 2: k = i; break;                                               /* sorted */
+        case 3: k = n - i; break;                                           /* reversed */
+        case 4: k = (long)(rnd() % 7); break;                               /* few distinct keys */
+        default: k = (long)(rnd() % (unsigned long)(2 * n + 1)); break;     /* random */
+        }
+        arr[i].key = (int)k; arr[i].id = (int)i + 1; before[i] = k;
+    }
+    begin("sortbig", n);
+    fprintf(out, "\"pattern\":%d,\"algo\":%d,\"via\":%d,", pattern, algo, via);
+    sig = sigsetjmp(jb, 1);
+    if (sig == 0) {
+        alarm(40);
+        if (via == 0) cstl_raw_array_sort(arr, (size_t)n, sizeof *arr, rcmp, &priv_token, cstl_swap, &arr[n], (cstl_sort_algorithm_t)algo);
+        else {
+            struct cstl_vector v;
+            cstl_vector_init(&v, sizeof *arr); cstl_vector_resize(&v, (size_t)n);
+            memcpy(cstl_vector_data(&v), arr, (size_t)n * sizeof *arr);
+            if (algo == (int)CSTL_SORT_ALGORITHM_DEFAULT) cstl_vector_sort(&v, rcmp, &priv_token); else __cstl_vector_sort(&v, rcmp, &priv_token, cstl_swap, (cstl_sort_algorithm_t)algo);
+            memcpy(arr, cstl_vector_data(&v), (size_t)n * sizeof *arr);
+            cstl_vector_clear(&v);
+        }
+        alarm(0);
+        for (i = 0; i < G; i++) if (block[i] != 0x5C || block[G + ((size_t)n + 1) * sizeof *arr + (size_t)i] != 0x5C) guards = 0;
+        for (i = 0; i < n; i++) ids[i] = arr[i].id;
+        put_list("before", before, n); fputs(",", out); put_list("ids", ids, n);
+        fprintf(out, ",\"guards\":%s", guards ? "true" : "false");
+        end_ok();
+    } else { alarm(0); end_sig(sig); }
+    free(before); free(ids); free(block);
+}
+static void do_sort(long n)
+{
+    static const int algos[] = { 0, 1, 2, 3, 12345 };      /* QUICK, QUICK_R, QUICK_M, HEAP, out of range (= default) */
+    int a, p;
+    for (a = 0; a < 5; a++) for (p = 0; p < 6; p++) {
+        int quad = (algos[a] == 0 && (p == 0 || p == 2 || p == 3 || p == 4)) || (algos[a] == 1 && p == 4);    /* quadratic by design: first-element / any pivot */
+        long m = quad ? 3000 : (algos[a] == 0 && p == 1) ? 3000 : n;
+        do_sort1(m, p, algos[a], (a + p) & 1);
+    }
+}
+
 int main(int argc, char **argv)
 {
     int a;
@@ -366,6 +434,7 @@ int main(int argc, char **argv)
         else if (!strncmp(argv[a], "bst", 3)) do_tree(n, 0);
         else if (!strncmp(argv[a], "map", 3)) do_map(n);
         else if (!strncmp(argv[a], "hash", 4)) do_hash(n);
+        else if (!strncmp(argv[a], "sort", 4)) do_sort(n);
     }
     fclose(out);
     printf("{\"records\":%ld}\n", rec_id);
